@@ -204,6 +204,10 @@ func ManageDeployment(client runtimeclient.Client, daemonset *datadoghqv1alpha1.
 			result.Result.Requeue = true
 		} else {
 			for _, pod := range canaryPods.Items {
+				// Pods with status phase Unknown are never touched: their node is usually unreachable
+				if pod.Status.Phase == corev1.PodUnknown {
+					continue
+				}
 				if err = deletePodLabel(params.Logger, client, &pod, datadoghqv1alpha1.ExtendedDaemonSetReplicaSetCanaryLabelKey); err != nil {
 					params.Logger.Error(err, fmt.Sprintf("Couldn't remove canary label from pod '%s/%s'", pod.GetNamespace(), pod.GetName()))
 					result.Result.Requeue = true
